@@ -6,7 +6,7 @@ The decode∘encode lemmas of `CodecDerRead.lean` are stated for slice readers; 
 arbitrary (nested) readers: `Next r l` = "the bytes `l` are what reader `r` will deliver next, and every frame of
 `r` has room for them"; each decoder step consumes a prefix and leaves `Next (r.adv k) rest`.
 -/
-namespace Codec.Der
+namespace Codec.DerRd
 
 
 /-! ## decoding what the model encoder produced, on any (nested) reader -/
@@ -640,4 +640,4 @@ theorem cmsParse_encCms {content kid r s : List Nat} (hk : kid.length = KEY_IDEN
   rw [encSignerInfo_eq]
   simp only [he3, ecdsaDerToRaw_encSig hr hs, Pure.pure, Except.pure]
 
-end Codec.Der
+end Codec.DerRd
